@@ -1,6 +1,7 @@
 package main
 
 import (
+	"archive/tar"
 	"bufio"
 	"bytes"
 	"compress/gzip"
@@ -439,6 +440,21 @@ func runFsJob(j *Job, res *JobResult) {
 		zw.Close()
 		stream = b.Bytes()
 	}
+	// "twins": objects at the same absolute paths the jailed extractor will use, but on the host side of the jail
+	// (the arena's own root).  Work that escapes the jailed thread (another goroutine, a helper) resolves its
+	// in-jail paths against the host root and lands on them.
+	var twinTops []string
+	twinBefore := map[string]string{}
+	for _, a := range j.Args {
+		if a == "twins" && j.Root != "" {
+			twinTops = plantTwins(j)
+			for _, t := range twinTops {
+				if ns, err := scanWorld(t); err == nil {
+					twinBefore[t] = renderTree(ns)
+				}
+			}
+		}
+	}
 	var size int64
 	var opErr error
 	rd := bytes.NewReader(stream)
@@ -477,7 +493,21 @@ func runFsJob(j *Job, res *JobResult) {
 			time.Sleep(150 * time.Millisecond)
 		}
 	}
+	var twinMsgs []string
+	for _, t := range twinTops {
+		ns, err := scanWorld(t)
+		if err != nil || renderTree(ns) != twinBefore[t] {
+			twinMsgs = append(twinMsgs, "host-side twin tree "+t+" changed"+twinDiff(twinBefore[t], ns))
+		}
+		_ = os.RemoveAll(t)
+	}
 	res.Extra = strayRootEntries()
+	if len(twinMsgs) > 0 {
+		if res.Extra != "" {
+			res.Extra += ","
+		}
+		res.Extra += strings.Join(twinMsgs, ",")
+	}
 	after, err := scanWorld("/w")
 	if err != nil {
 		res.Out, res.Err = "setup", "scan after: "+err.Error()
@@ -657,4 +687,87 @@ func maxInt(a, b int) int {
 		return a
 	}
 	return b
+}
+
+
+// plantTwins creates, for every directory and regular-file entry of the job's archive, an object at the path the
+// jailed extractor will use for it, resolved against the arena's root instead of the jail's.  Returns the
+// top-level directories it created.
+func plantTwins(j *Job) []string {
+	relDest, err := filepath.Rel(j.Root, j.Dest)
+	if err != nil || strings.HasPrefix(relDest, "..") {
+		return nil
+	}
+	tops := map[string]bool{}
+	tr := tar.NewReader(bytes.NewReader(j.Archive))
+	var made []string
+	for n := 0; n < 400; n++ {
+		h, err := tr.Next()
+		if err != nil {
+			break
+		}
+		if h.Typeflag != tar.TypeDir && h.Typeflag != tar.TypeReg {
+			continue
+		}
+		p := filepath.Join("/", relDest, filepath.Join("/", h.Name))
+		comps := strings.Split(strings.TrimPrefix(p, "/"), "/")
+		if len(comps) == 0 || comps[0] == "" || arenaBaseline[comps[0]] || comps[0] == "old" {
+			continue
+		}
+		if err := os.MkdirAll(filepath.Dir(p), 0o755); err != nil {
+			continue
+		}
+		if h.Typeflag == tar.TypeDir {
+			if err := os.MkdirAll(p, 0o755); err != nil {
+				continue
+			}
+		} else if _, err := os.Lstat(p); err != nil {
+			if err := os.WriteFile(p, []byte("TWIN-host-side"), 0o600); err != nil {
+				continue
+			}
+		}
+		tops["/"+comps[0]] = true
+		made = append(made, p)
+	}
+	ts := []unix.Timespec{{Sec: 777}, {Sec: 777}}
+	var out []string
+	for t := range tops {
+		out = append(out, t)
+		_ = filepath.Walk(t, func(p string, _ os.FileInfo, err error) error {
+			if err == nil {
+				_ = unix.UtimesNanoAt(unix.AT_FDCWD, p, ts, unix.AT_SYMLINK_NOFOLLOW)
+			}
+			return nil
+		})
+		_ = unix.UtimesNanoAt(unix.AT_FDCWD, t, ts, 0)
+	}
+	sort.Strings(out)
+	_ = made
+	return out
+}
+
+func twinDiff(before string, after []Node) string {
+	b, err := parseOutcome("x 0 " + before)
+	if err != nil {
+		return ""
+	}
+	old := map[string]string{}
+	for _, n := range b.Nodes {
+		old[unhx(n[0])] = strings.Join(n[1:], " ")
+	}
+	cnt := 0
+	first := ""
+	for _, n := range after {
+		f := n.fields()
+		if v, ok := old[n.Path]; !ok || v != strings.Join(f[1:], " ") {
+			cnt++
+			if first == "" {
+				first = n.Path
+			}
+		}
+	}
+	if cnt == 0 {
+		return ""
+	}
+	return fmt.Sprintf(" (%d object(s) differ, first %s)", cnt, first)
 }
